@@ -81,6 +81,9 @@ def items(tier):
         out.append({"kind": "e2e", "dag": [list(p) for p in dag], "kmax": 2, "kmin": 2})
     for dag in commit_dags(nmax):
         out.append({"kind": "gitconf", "dag": [list(p) for p in dag]})
+    # the whole selection path on REAL git repositories (no fake): catches any change in how git is asked
+    for dag in commit_dags(4):
+        out.append({"kind": "realgit", "dag": [list(p) for p in dag], "kmax": 2 if (tier == "thorough" or len(dag) <= 3 or any(len(p) == 2 for p in dag)) else 1})
     out.append({"kind": "gitconf-special"})
     return out
 
@@ -107,6 +110,9 @@ def run_item(item, tier):
         _e2e(item, res, viol)
     elif item["kind"] == "gitconf":
         _gitconf(item, res, viol)
+    elif item["kind"] == "realgit":
+        with _quiet_stderr():
+            _realgit(item, res, viol)
     else:
         _gitconf_special(res, viol)
     for key, (what, art) in found.items():
@@ -381,6 +387,56 @@ def _gitconf_inner(item, res, viol):
     res["sample"] = {"real_repo_dag_parents": item["dag"], "queries": "is_used, current_commit, rev_parse, is_ancestor, get_distance on all ordered pairs + unknown hash"}
 
 
+def _realgit(item, res, viol):
+    """`cond where` (conductor.lib.path.where) in a real git repository with this commit graph: the version it reports
+    must be the one the documented rule selects."""
+    import conductor.lib.path as libpath
+    dag = [tuple(p) for p in item["dag"]]
+    n = len(dag)
+    root, hashes = build_real_repo(dag, name="c05real")
+    with open(os.path.join(root, "COND"), "w") as f:
+        f.write(COND)
+    commits = {hashes[i]: [hashes[p] for p in ps] for i, ps in enumerate(dag)}
+    labels = [None, UNKNOWN] + hashes
+    seqs = []
+    for k in range(0, item["kmax"] + 1):
+        for seq in itertools.product(labels, repeat=k):
+            seqs.append([(100 * (j + 1), c) for j, c in enumerate(seq)])
+    idx = os.path.join(root, "cond-out", "version_index.sqlite")
+    old = os.getcwd()
+    try:
+        for head in range(n):
+            _git(root, "update-ref", "--no-deref", "HEAD", hashes[head])
+            for versions in seqs:
+                if os.path.exists(idx):
+                    os.unlink(idx)
+                driver.make_index(idx, [("//:e", ts, c, 0) for ts, c in versions])
+                for ts, c in versions:
+                    os.makedirs(os.path.join(root, "cond-out", "e.task.%d" % ts), exist_ok=True)
+                os.chdir(root)
+                res["evals"] += 1
+                res["transitions"] += 1
+                res["traces_validated"] += 1
+                want = ref.select_version(versions, "git", commits, hashes[head])
+                try:
+                    p = libpath.where("//:e")
+                    got = None if p is None else int(p.name.rsplit(".", 1)[1])
+                except Exception as ex:  # noqa
+                    got = "error:%s" % type(ex).__name__
+                os.chdir(old)
+                res["states"].add(explore.sig(["realgit", item["dag"], head, [(t, labels.index(c)) for t, c in versions]]))
+                if versions:
+                    res["sigs"].add(explore.sig(["realgit", item["dag"], head, [(t, labels.index(c)) for t, c in versions]]))
+                if got != (None if want is None else want[0]):
+                    names = {h: "c%d" % i for i, h in enumerate(hashes)}
+                    pv = [(t, names.get(c, c and c[:4])) for t, c in versions]
+                    viol("realgit:wrong-version", "real repository, parents %s, HEAD c%d, versions %s: cond where selects %s, documented rule selects %s"
+                         % (item["dag"], head, pv, got, None if want is None else want[0]), {"kind": "realgit", "dag": item["dag"], "kmax": item["kmax"]})
+    finally:
+        os.chdir(old)
+    res["sample"] = {"real_git_repository_parents": item["dag"], "versions_per_case": "<=%d" % item["kmax"], "via": "conductor.lib.path.where"}
+
+
 def _dist(g, a, b):
     try:
         return g.get_distance(a, b)
@@ -443,6 +499,8 @@ def replay(artefact):
         item = {"kind": "e2e", "dag": artefact["dag"], "kmax": len(artefact["versions"]), "kmin": len(artefact["versions"])}
     elif k == "gitconf":
         item = {"kind": "gitconf", "dag": artefact["dag"]}
+    elif k == "realgit":
+        item = {"kind": "realgit", "dag": artefact["dag"], "kmax": artefact["kmax"]}
     else:
         item = {"kind": "gitconf-special"}
     r = run_item(item, "quick")
